@@ -398,6 +398,27 @@ def check_quantity(ctx, c):
     if bits(q.value) != bits(ref[1]):
         raise Violation("UnitValue(%r).value = %r, expected %r" % (text, q.value, ref[1]), key="quantity:value")
     compare_accept(text, ("ACCEPT",) + ref[2:], q.units, "UnitValue(str)")
+    # the function behind the constructor, and the same text once more after the caller has modified what it got
+    # (the value of a text cannot depend on what was done with the result of an earlier parse)
+    p1 = sut_call("parse_unitvalue(%r)" % text, S.parse_unitvalue, text)
+    if bits(p1.value) != bits(ref[1]):
+        raise Violation("parse_unitvalue(%r).value = %r, expected %r" % (text, p1.value, ref[1]), key="quantity:value")
+    compare_accept(text, ("ACCEPT",) + ref[2:], p1.units, "parse_unitvalue")
+    utext = render(c["factors"])
+    u1 = sut_call("parse_units(%r)" % utext, S.parse_units, utext)
+    for obj in (q, p1):
+        obj.value = obj.value + 1006.0
+        obj.units = "km-1.h2"
+    for k, v in (("space", "km"), ("time", "h"), ("quantity", "kmol")):
+        u1.sys[k] = v
+    for name, fn in (("parse_unitvalue", S.parse_unitvalue), ("UnitValue", S.UnitValue)):
+        p2 = sut_call("%s(%r) again" % (name, text), fn, text)
+        if bits(p2.value) != bits(ref[1]):
+            raise Violation("%s(%r).value = %r after an earlier result for the same text was modified by its owner, expected %r" % (
+                name, text, p2.value, ref[1]), key="quantity:reparse")
+        compare_accept(text, ("ACCEPT",) + ref[2:], p2.units, "%s (same text parsed again)" % name)
+    u2 = sut_call("parse_units(%r) again" % utext, S.parse_units, utext)
+    compare_accept(utext, ("ACCEPT",) + ref[2:], u2, "parse_units (same text parsed again)")
 
 
 # ---- thorough tier: coverage-guided campaign (Atheris) with the reference oracle inside the target ----------
